@@ -353,8 +353,8 @@ MESHES = dict(quick=['tet1', 'tetfan', 'polyfan', 'polydel', 'polymix', 'hex1', 
                      'polyfan#000', 'polyfan#011', 'polyfan#101', 'polyfan#110', 'polymix#000'],
               thorough=['tet1', 'tetfan', 'polyfan', 'polydel', 'polymix', 'hex1', 'hexblock221', 'hexblock222', 'hexblock321']
                        + ['%s#%s' % (m, c) for m in ('polyfan', 'polymix', 'polydel') for c in ('000', '001', '010', '011', '100', '101', '110')])
-GEN = dict(quick=dict(ThreadCounts=[2, 3, 4, 8, 16], SameCounts=[2, 4, 16], LockCounts=[2, 4], RndCases=2, RndLen=200, Reps=3, RepsBig=20),
-           thorough=dict(ThreadCounts=[2, 3, 4, 5, 6, 8, 12, 16], SameCounts=[2, 3, 4, 8, 16], LockCounts=[2, 3, 4, 8], RndCases=6, RndLen=400, Reps=8, RepsBig=50))
+GEN = dict(quick=dict(ThreadCounts=[2, 3, 4, 8, 16], CfgCounts=[2, 8], SameCounts=[2, 4, 16], LockCounts=[2, 4], RndCases=2, RndLen=200, Reps=3, RepsBig=20),
+           thorough=dict(ThreadCounts=[2, 3, 4, 5, 6, 8, 12, 16], CfgCounts=[2, 4, 16], SameCounts=[2, 3, 4, 8, 16], LockCounts=[2, 3, 4, 8], RndCases=6, RndLen=400, Reps=8, RepsBig=50))
 # (name, readers, hazard, program length, query set); hazards are negative controls: TLC must reject them
 MC = dict(quick=[('r2', 'R2', 'none', 2, 'MCQ6'), ('r3', 'R3', 'none', 2, 'MCQ3'), ('r4', 'R4', 'none', 1, 'MCQ4'),
                  ('hz-shared', 'R2', 'shared_scratch', 1, 'MCQ4'), ('hz-lazy', 'R2', 'lazy_cache', 1, 'MCQ4')],
@@ -483,8 +483,8 @@ def run_c20(tier, seed, replay=None):
                     fo.write(r.stdout.splitlines()[0] + '\n')
             # 2. TLC derives the alphabet of every mesh and the programs
             g = GEN[tier]
-            cfg = ('SPECIFICATION Spec\nCONSTANTS\n  Seed = %d\n  ThreadCounts = %s\n  SameCounts = %s\n  LockCounts = %s\n  RndCases = %d\n  RndLen = %d\n  Reps = %d\n  RepsBig = %d\n'
-                   'INVARIANT EmitCase\nCHECK_DEADLOCK FALSE\n' % (seed % 100000, vlib.tla_set(g['ThreadCounts']), vlib.tla_set(g['SameCounts']), vlib.tla_set(g['LockCounts']),
+            cfg = ('SPECIFICATION Spec\nCONSTANTS\n  Seed = %d\n  ThreadCounts = %s\n  CfgCounts = %s\n  SameCounts = %s\n  LockCounts = %s\n  RndCases = %d\n  RndLen = %d\n  Reps = %d\n  RepsBig = %d\n'
+                   'INVARIANT EmitCase\nCHECK_DEADLOCK FALSE\n' % (seed % 100000, vlib.tla_set(g['ThreadCounts']), vlib.tla_set(g['CfgCounts']), vlib.tla_set(g['SameCounts']), vlib.tla_set(g['LockCounts']),
                                                                      g['RndCases'], g['RndLen'], g['Reps'], g['RepsBig']))
             rc, out, wall = tlc('OVMReadersGen.tla', cfg, work, 'gen', workers=2, env=dict(MESHES=mfile), heap='6g')
             if rc != 0:
@@ -511,7 +511,8 @@ def run_c20(tier, seed, replay=None):
                     sp = os.path.join(work, 'rd-%s-%d.txt' % (m.replace('#', '_'), i))
                     open(sp, 'w').write(c20_script(m, alpha[m], sorted(part, key=lambda c: c['case'])))
                     scripts.append(sp)
-                gen_info[m] = dict(queries=len(alpha[m]), cases=len(cs), threads=sorted({c['threads'] for c in cs}))
+                gen_info[m] = dict(queries=len(alpha[m]), cases=len(cs), threads=sorted({c['threads'] for c in cs}),
+                                   incidences_vef=m.split('#')[1] if '#' in m else '111')
             log('C20 gen: %d meshes, %d queries, %d cases, TLC %.0fs' % (len(alpha), sum(len(a) for a in alpha.values()),
                                                                           sum(len(c) for c in cases.values()), wall))
         # 3. run every script single-threaded + concurrently (plain and under ThreadSanitizer), validate the traces
